@@ -200,3 +200,8 @@ def run(ctx):
     import rules.C05 as c05
     ctx.borrow(c05.r6, {'C05.R6': 'C06.R5'},
                'dates round-trip because the two day-count conversions are both the standard algorithm and therefore inverse')
+    import rules.C12 as c12
+    ctx.borrow(c12.r3, {'C12.R3': 'C06.R6'},
+               'decoded text re-encodes only if numbers were printed in decimal whatever an earlier field left in the stream')
+    ctx.borrow(c12.r5, {'C12.R5': 'C06.R7'},
+               'decoded text re-encodes to the same bytes only if it was printed with the type\'s own precision')
